@@ -326,7 +326,11 @@ where
     //
     // We don't prepack when the "A" matrix is a vector because that uses a
     // special case vector-matrix algorithm that doesn't benefit from packing.
-    let prepacked_a = (num_a_matrices == 1 && num_b_matrices > 1 && a_rows > 1).then(|| {
+    //
+    // We also don't prepack "A" if it has a zero point. The zero point is
+    // stored in the packed matrix, but prepacking assumes it is zero.
+    let can_prepack_a = a_rows > 1 && a_quant.is_none();
+    let prepacked_a = (num_a_matrices == 1 && num_b_matrices > 1 && can_prepack_a).then(|| {
         let a_matrix = a.inner_iter::<2>().next().unwrap();
         gemm.prepack_a_in(pool, a_matrix).auto_return(pool)
     });
